@@ -10,8 +10,8 @@ WT=/tmp/wt-seed-$ID-$$
 git -C /repo worktree add --detach "$WT" HEAD >/dev/null 2>&1 || exit 3
 cleanup() { git -C /repo worktree remove --force "$WT"; rm -rf /verif/.build/$(python3 -c "import hashlib,sys;print(hashlib.sha1(sys.argv[1].encode()).hexdigest()[:10])" "$WT"); }
 if ! git -C "$WT" apply "$OUT/patch.diff"; then echo "SEED: patch does not apply"; cleanup; exit 3; fi
-(cd "$WT" && go build ./$PKG/ ) || { echo "SEED: does not build"; cleanup; exit 3; }
-cp "$OUT/$DEMO" "$WT/$PKG/"
+(cd "$WT" && go build ./${BUILDPKG:-$PKG}/ ) || { echo "SEED: does not build"; cleanup; exit 3; }
+mkdir -p "$WT/$PKG"; cp "$OUT/$DEMO" "$WT/$PKG/"
 (cd "$WT" && go test -vet=off -count=1 -run "$RUNRE" ./$PKG/ > /tmp/seed-$ID-with.log 2>&1); rcw=$?
 git -C "$WT" apply -R "$OUT/patch.diff"
 (cd "$WT" && go test -vet=off -count=1 -run "$RUNRE" ./$PKG/ > /tmp/seed-$ID-without.log 2>&1); rco=$?
